@@ -181,6 +181,7 @@ def check(ctx):
         tx += ["﻿" + valid[0], valid[0].replace("\n", "\r\n"), "let a = { 'x num, 'y str, };\nres /a?{ 'q str, } on get { 'p num, } -> <a>;\n",
                "", " ", "// only a comment", "/* unterminated", "\"unterminated", "`unterminated", "let a = 1X;", "res / on get -> <>;\né",
                "let a = { € 'price num };", "let 😉 = num;"]
+        tx += texts.block_comment_texts(4 if ctx.thorough else 3)
         tx += [texts.text_of_kinds(s) for s in texts.seqs_upto(texts.REDUCED[:10], 3)]
         # every text of up to 3 (thorough: 4) characters over the characters on which the token patterns branch
         import itertools
